@@ -558,3 +558,136 @@ mod verif_c19d {
     }
 }
 //@end
+
+//@append src/primitives/triangle/scanline_intersections.rs
+#[cfg(kani)]
+#[allow(missing_docs, trivial_casts, trivial_numeric_casts, unused_qualifications, dead_code, unused)]
+mod verif_c19x {
+    use super::*;
+    use crate::primitives::triangle::scanline_iterator::verif_c19i::{any_triangle, init_fixed, row_fixed};
+
+    /// Stand-ins: the three edge segments of a stroked triangle intersect the scanline in three arbitrary
+    /// (possibly empty) runs, handed out in call order; joins are not inspected by the stand-in.
+    static mut SEG: [(i32, i32); 3] = [(0, 0); 3];
+    static mut SEG_CALLS: usize = 0;
+    fn seg_fixed(_s: &ThickSegment, y: i32) -> Scanline {
+        let (a, b) = unsafe {
+            let i = SEG_CALLS;
+            SEG_CALLS += 1;
+            SEG[i % 3]
+        };
+        Scanline::new(y, a..b)
+    }
+    fn join_fixed(_a: Point, _b: Point, _c: Point, _w: u32, _o: StrokeOffset) -> LineJoin {
+        LineJoin::empty()
+    }
+    fn has(s: (i32, i32), x: i32) -> bool {
+        s.0 <= x && x < s.1
+    }
+    fn touch(a: (i32, i32), b: (i32, i32)) -> bool {
+        a.0 < a.1 && b.0 < b.1 && a.0 <= b.1 && b.0 <= a.1
+    }
+
+    /// Stroked triangle, one scanline: the runs the iterator yields are exactly the union of the three edge
+    /// segments' intersections with that row (the "outline consists of its three edge lines" plumbing; each
+    /// pixel in one run only), whenever those form at most two separate clusters -- a closed outline crosses
+    /// a row in at most two places. With a fill colour the Fill run is exactly the gap between the two stroke
+    /// clusters; a row no edge touches gets the plain fill row; one cluster means no fill on that row.
+    /// Unbounded: edge intersections and joins through pure-function stand-ins.
+    //@harness prop=C19 kind=step tier=quick class=I bound="three arbitrary edge runs per row forming at most two clusters" kani="--no-assertion-reach-checks" fns=src/primitives/triangle/scanline_intersections.rs::ScanlineIntersections::edge_intersections;src/primitives/triangle/scanline_intersections.rs::ScanlineIntersections::generate_lines;src/primitives/triangle/scanline_intersections.rs::ScanlineIntersections::next
+    #[kani::proof]
+    #[kani::unwind(5)]
+    #[kani::stub(crate::primitives::common::ThickSegment::intersection, seg_fixed)]
+    #[kani::stub(crate::primitives::common::LineJoin::from_points, join_fixed)]
+    #[kani::stub(crate::primitives::triangle::Triangle::scanline_intersection, crate::primitives::triangle::scanline_iterator::verif_c19i::row_fixed)]
+    #[kani::stub(crate::primitives::triangle::Triangle::is_collapsed, crate::primitives::triangle::scanline_iterator::verif_c19i::collapsed_fixed)]
+    fn c19_triangle_stroke_rows_merge() {
+        init_fixed();
+        let mut s = [(0i32, 0i32); 3];
+        let mut i = 0;
+        while i < 3 {
+            let (a, b): (i32, i32) = (kani::any(), kani::any());
+            kani::assume(-4096 <= a && a <= b && b <= 4096);
+            s[i] = (a, b);
+            i += 1;
+        }
+        unsafe {
+            SEG = s;
+            SEG_CALLS = 0;
+        }
+        // at most two clusters
+        let three = s[0].0 < s[0].1 && s[1].0 < s[1].1 && s[2].0 < s[2].1;
+        kani::assume(!(three && !touch(s[0], s[1]) && !touch(s[0], s[2]) && !touch(s[1], s[2])));
+        let t = any_triangle();
+        let y: i32 = kani::any();
+        kani::assume(-2048 <= y && y <= 2048);
+        let has_fill: bool = kani::any();
+        let w: u32 = kani::any();
+        kani::assume(w >= 1 && w <= 128);
+        let off = if kani::any() { StrokeOffset::None } else { StrokeOffset::Left };
+        let mut it = ScanlineIntersections::new(&t, w, off, has_fill, y);
+        let q: i32 = kani::any();
+        let (mut stroke_hits, mut fill_hits, mut items) = (0u32, 0u32, 0u32);
+        let mut k = 0;
+        while k < 4 {
+            if let Some((run, ty)) = it.next() {
+                assert!(run.y == y && !run.is_empty());
+                items += 1;
+                if run.x.start <= q && q < run.x.end {
+                    if ty == PointType::Stroke { stroke_hits += 1 } else { fill_hits += 1 }
+                }
+            }
+            k += 1;
+        }
+        assert!(items <= 3);
+        let in_union = has(s[0], q) || has(s[1], q) || has(s[2], q);
+        assert!(stroke_hits == if in_union { 1 } else { 0 });
+        assert!(!(stroke_hits == 1 && fill_hits == 1));
+        // hull of the union and number of clusters
+        let nonempty = |r: (i32, i32)| r.0 < r.1;
+        let any_run = nonempty(s[0]) || nonempty(s[1]) || nonempty(s[2]);
+        if !has_fill {
+            assert!(fill_hits == 0);
+        } else if !any_run {
+            let row = row_fixed(&t, y);
+            assert!((fill_hits == 1) == (row.x.start <= q && q < row.x.end));
+        } else {
+            let lo = [s[0], s[1], s[2]].iter().filter(|r| nonempty(**r)).map(|r| r.0).min().unwrap();
+            let hi = [s[0], s[1], s[2]].iter().filter(|r| nonempty(**r)).map(|r| r.1).max().unwrap();
+            // the fill is the part of the hull no edge run covers (empty when there is a single cluster)
+            assert!((fill_hits == 1) == (lo <= q && q < hi && !in_union));
+        }
+        kani::cover!(items == 3 && fill_hits == 1);
+        kani::cover!(items == 2 && !has_fill);
+        kani::cover!(items == 1 && three);
+    }
+}
+//@end
+
+//@append src/primitives/common/line_join.rs
+#[cfg(kani)]
+#[allow(missing_docs, trivial_casts, trivial_numeric_casts, unused_qualifications, dead_code, unused)]
+mod verif_c19j {
+    use super::*;
+
+    /// One-pixel strokes: every join of a width-1 outline collapses to the vertex itself (left == right ==
+    /// the shared vertex on both edges), so each edge segment of the outline is a skeleton whose scanline
+    /// intersection is the Bresenham line between the two vertices (c19_thick_segment_skeleton_row).
+    //@harness prop=C19 kind=bounded tier=quick class=P bound="vertices within -8..=7 (4-bit coordinates), stroke width 1, centred stroke" timeout=900 kani="--no-assertion-reach-checks" fns=src/primitives/common/line_join.rs::LineJoin::from_points;src/primitives/common/line_join.rs::LineJoin::start;src/primitives/common/line_join.rs::LineJoin::end
+    #[kani::proof]
+    #[kani::unwind(5)]
+    fn c19_width1_joins_are_vertices() {
+        let c = || (kani::any::<u8>() & 15) as i32 - 8;
+        let (a, b, d) = (Point::new(c(), c()), Point::new(c(), c()), Point::new(c(), c()));
+        let j = LineJoin::from_points(a, b, d, 1, StrokeOffset::None);
+        assert!(j.first_edge_end.left == b && j.first_edge_end.right == b);
+        assert!(j.second_edge_start.left == b && j.second_edge_start.right == b);
+        let s = LineJoin::start(a, b, 1, StrokeOffset::None);
+        assert!(s.second_edge_start.left == a && s.second_edge_start.right == a && s.first_edge_end.left == s.first_edge_end.right);
+        let e = LineJoin::end(a, b, 1, StrokeOffset::None);
+        assert!(e.first_edge_end.left == b && e.first_edge_end.right == b);
+        kani::cover!(a != b && b != d && a != d);
+        kani::cover!(a == b);
+    }
+}
+//@end
